@@ -26,7 +26,7 @@ func registry() *kernel.Registry {
 		{"Tendermint consensus/p2p/mempool (simulator drives ABCI directly; headers signed by a validator stub with real ed25519 keys)",
 			"off-chain relayers, users, adversary, governance actor (simulator actors)"},
 	}
-	for _, p := range []string{"C01", "C02", "C03", "C04", "C05", "C06", "C19"} {
+	for _, p := range []string{"C01", "C02", "C03", "C04", "C05", "C06", "C13", "C19"} {
 		reg.Serves[p] = append(reg.Serves[p], "xr")
 	}
 	xr.Register(reg)
